@@ -19,7 +19,7 @@ ASSUMPTIONS = ["20-letter amino-acid alphabet (kdtree / hash_based domain)",
 EXHAUSTIVE = {"quick": ["720 orderings of a 6-element 3-length-class list x 4 engines", "all strings len<=4 over AC, k=1..4, 4 engines"],
               "thorough": ["720 orderings x 3 different base lists x 4 engines", "all strings len<=5 over ACD, k=1..3",
                            "all strings len<=4 over AC, k=1..4"]}
-REQUIRE = {"ham_big_cases": 1, "inputs_lengths_not_grouped": 50, "inputs_with_shift_pairs": 5, "inputs_with_unequal_length_lev_close_pairs": 20,
+REQUIRE = {"hamming_after_default_first_lookup": 12, "ham_big_cases": 1, "inputs_lengths_not_grouped": 50, "inputs_with_shift_pairs": 5, "inputs_with_unequal_length_lev_close_pairs": 20,
            "kdtree_calls": 50, "hash_based_calls": 50, "symdel_calls": 50, "cross_cases": 12, "triplets_compared": 1000}
 SHARDS = {"quick": 6, "thorough": 16}
 
@@ -90,6 +90,15 @@ def k_ham_cross(ctx, refs, queries, k):
         ctx.call(db.value.lookup, list(queries))
         out = ctx.call(db.value.lookup, list(queries), custom_distance="hamming")
         S.expect_triplets(ctx, out, exp, "SymdelDB.lookup", "hamming-cross-repeat")
+        # a fresh object whose FIRST lookup is a default-mode one: the Hamming lookup that follows must not inherit anything from it
+        db2 = ctx.call(nn.SymdelDB, list(refs), k)
+        if db2.ok:
+            ctx.count("hamming_after_default_first_lookup")
+            ctx.call(db2.value.lookup, list(queries))
+            out = ctx.call(db2.value.lookup, list(queries), custom_distance="hamming")
+            S.expect_triplets(ctx, out, exp, "SymdelDB.lookup", "hamming-cross-after-default-first")
+            out = ctx.call(db2.value.lookup, list(reversed(queries)), custom_distance="hamming")
+            S.expect_triplets(ctx, out, O.neigh_cross(list(reversed(queries)), refs, k, "ham"), "SymdelDB.lookup", "hamming-cross-after-default-first-reversed")
     else:
         ctx.violation("SymdelDB:build:raised", "SymdelDB construction raised", db.describe(), None)
     ldb = ctx.call(nn.LookupDB, list(refs))
